@@ -221,6 +221,8 @@ func c16gridRing(idx uint64) []P {
 	return []P{gp(idx / 46656), gp((idx / 1296) % 36), gp((idx / 36) % 36), gp(idx % 36)}
 }
 
+var c16ret retained
+
 const c16fixedBase = uint64(1) << 40
 
 // c16fixedCase runs case idx of the fixed list (generated from idx alone, independent of VERIF_SEED).
@@ -429,6 +431,10 @@ func init() {
 					if pv != nil {
 						c.Fail("", "smartclip.Ring panicked", map[string]interface{}{"case": d(nil), "panic": sv(pv), "stack": st})
 						return
+					}
+					c16ret.check(c)
+					if out != nil {
+						c16ret.set(out, "smartclip.Ring")
 					}
 					if msg, det := c16judge(box, in, o, out, plainClipArea(box, in), c16queries(r, box, 30), scale); msg != "" {
 						c.Fail("", msg, map[string]interface{}{"case": d(out), "detail": det})
